@@ -10,6 +10,9 @@ func fuzzOne(t *testing.T, data []byte, cfg uint8, stream bool) {
 	if len(data) > 1<<17 {
 		return
 	}
+	if stream && hasBig32(data) {
+		return // listed known finding C13-msgpack-stream-alloc, excluded by construction
+	}
 	pl := Plan{Mode: int(cfg>>1) % 3, Layer: "plain", M: Mut{Kind: "raw", Raw: data}, Stall: cfg&16 != 0}
 	if cfg&1 != 0 {
 		pl.Label = "lbl"
